@@ -841,6 +841,12 @@ func (self *_Compiler) compilePtr(p *_Program, sp int, et reflect.Type) {
 	/* dereference all the way down */
 	for et.Kind() == reflect.Ptr {
 		if self.checkMarshaler(p, et, 0, true) {
+			// the null test at i still needs its target
+			j := p.pc()
+			p.add(_OP_goto)
+			p.pin(i)
+			p.add(_OP_nil_1)
+			p.pin(j)
 			return
 		}
 		et = et.Elem()
